@@ -12,7 +12,9 @@ export GOFLAGS=-mod=mod GOPROXY=off
 # MUTEST_BASE: the commit of /repo the patch was written against (default HEAD)
 git -C /repo worktree add -q --detach "$wt" "${MUTEST_BASE:-HEAD}" || exit 2
 trap 'git -C /repo worktree remove --force "$wt" >/dev/null 2>&1; rm -rf "$out"' EXIT
-git -C "$wt" apply "$patch" || { echo "patch does not apply"; exit 2; }
+# (a stored change may have been written against an earlier commit of /repo: fall back to a three-way merge)
+git -C "$wt" apply "$patch" 2>/dev/null || git -C "$wt" apply -3 "$patch" >/dev/null 2>&1 || { echo "patch does not apply"; exit 2; }
+if grep -rl '^<<<<<<< ' "$wt/pkg" "$wt/devpkg" >/dev/null 2>&1; then echo "patch does not apply (conflict)"; exit 2; fi
 ( cd "$wt" && go build ./... ) || { echo "does not build"; exit 2; }
 mkdir -p "$out"; cp /verif/known_findings.json "$out/"; cp /verif/properties.jsonl "$out/"
 rc=0
